@@ -790,7 +790,7 @@ def run_check(prop, tier):
     if tier == "quick":
         njobs, nrep, rounds = (300, 48, 1) if prop != "C18" else (120, 40, 1)
     else:
-        njobs, nrep, rounds = (300, 64, 6) if prop != "C18" else (150, 64, 3)
+        njobs, nrep, rounds = (300, 64, 60) if prop != "C18" else (150, 64, 20)
     if "DTSIM_RUNS" in os.environ:
         njobs = int(os.environ["DTSIM_RUNS"])
     budget = float(os.environ.get("DTSIM_BUDGET_S", "420" if tier == "quick" else "900"))
